@@ -56,7 +56,11 @@ def run(rep):
                 except Exception as e:   # noqa
                     ea = e
                 try:
-                    b = ll.afb2d_nonsep(X, filts, mode=mode)
+                    # the non-separable routine gets its filters in every accepted form in turn: raw arrays (tuple), lists of
+                    # floats, the prepared (4,1,h,w) kernel tensor; 'per' is the documented alias of 'periodization'
+                    kf = H + W + Lc + Lr
+                    f_ns = filts if kf % 3 == 0 else ([t.tolist() for t in filts] if kf % 3 == 1 else ll.prep_filt_afb2d_nonsep(*filts))
+                    b = ll.afb2d_nonsep(X, f_ns, mode="per" if (mode == "periodization" and kf % 2) else mode)
                 except Exception as e:   # noqa
                     eb = e
                 rep.validated()
@@ -96,7 +100,8 @@ def run(rep):
                 except Exception as e:   # noqa
                     ea = e
                 try:
-                    yn = ll.sfb2d_nonsep(C, gf, mode=mode)
+                    g_ns = gf if kf % 3 == 1 else ([t.tolist() for t in gf] if kf % 3 == 2 else ll.prep_filt_sfb2d_nonsep(*gf))
+                    yn = ll.sfb2d_nonsep(C, g_ns, mode="per" if (mode == "periodization" and kf % 2 == 0) else mode)
                 except Exception as e:   # noqa
                     eb = e
                 rep.validated()
